@@ -34,7 +34,7 @@ contract("xdoctest.runner:_run_examples",
              ],
              body_post=[("run-once", "ev_count('DocTest.run') == 1 and ev_arg('DocTest.run', 0, 'self') is example "
                                      "and ev_arg('DocTest.run', 0, 'on_error') == 'return'")])},
-         raises={"SystemExit?": None, "Skipped?": None},
+         raises={"BaseException*?": "not isinstance(exc, Exception)"},
          props=["C10", "C09"],
          opts={"native": False,
                "exit_facts": [("adds-up", "n_passed + n_failed + n_skipped == len(summaries)"),
@@ -75,7 +75,7 @@ contract("xdoctest.runner:doctest_module#gather",
                   ("runs-the-gathered-once", "implies(command != 'list' and command != 'dump', ev_count('_run_examples') == 1 "
                                              "and result is ev_arg('_run_examples', 0, 'result'))"),
                   ],
-         raises={"SystemExit?": None, "Skipped?": None},
+         raises={"BaseException*?": "not isinstance(exc, Exception)"},
          loops={1: LoopSpec(
                     header="examples",
                     types={"enabled_examples": "idxlist[examples]"},
